@@ -26,6 +26,13 @@ ASSUMPTIONS = [
 STD = ("", "ai.onnx")
 
 
+def _op_from_message(msg):
+    import re
+
+    m = re.search(r"No Op registered for (\w+)", msg) or re.search(r"op_type:\s*(\w+), node name: node_(?!Loop|If|Scan)", msg)
+    return m.group(1) if m else "?"
+
+
 def schema_problems(model, requested):
     """Walks every node (graph, subgraphs, functions). Returns list of (facet, op_type, text)."""
     import onnx
@@ -150,7 +157,7 @@ def check_catalog(cid, opsets, acc=None):
         try:
             onnx.checker.check_model(m, full_check=True)
         except Exception as e:
-            probs.append(("checker", "?", str(e)[:250]))
+            probs.append(("checker", _op_from_message(str(e)), str(e)[:250]))
         ort_ok = False
         if v <= 26 and m.ByteSize() < 60_000_000 and not probs:
             try:
@@ -232,6 +239,60 @@ def check_generated(kind, a, b, opsets, acc=None):
     return out
 
 
+def check_placed(cid, placement, opsets, acc=None):
+    """A registered single-input component lowered *inside* a control-flow body: nested contexts must honour the requested opset too."""
+    import jax
+    import jax.numpy as jnp
+    import onnx
+    from jax import lax
+    from vf import catalog, jaxutil
+
+    out = []
+    case = catalog.by_id(cid)
+    p = catalog.prepare(case) if case else None
+    if p is None or len(p.shapes) != 1 or p.symbols or p.params or np.dtype(p.dtypes[0]).kind != "f" or p.kw.get("inputs_as_nchw") or p.kw.get("outputs_as_nchw"):
+        return out
+    f = p.fn
+    try:
+        es = jax.eval_shape(f, jax.ShapeDtypeStruct(tuple(p.shapes[0]), p.dtypes[0]))
+        if any(np.dtype(l.dtype).kind == "c" for l in jax.tree_util.tree_leaves(es)):
+            return out  # complex results use a packed representation at the model boundary: not placed inside bodies
+    except Exception:
+        return out
+    if placement == "cond":
+        fn = lambda x, pr: lax.cond(pr, lambda v: f(v), lambda v: f(v * 0.5), x)
+    elif placement == "scan":
+        fn = lambda x, pr: lax.scan(lambda c, _: (c, f(c)), x, None, length=2)[1]
+    else:
+        fn = lambda x, pr: lax.fori_loop(0, 2, lambda i, c: c, jax.tree_util.tree_leaves(f(x))[0])
+    specs = [jax.ShapeDtypeStruct(tuple(p.shapes[0]), p.dtypes[0]), jax.ShapeDtypeStruct((), np.bool_)]
+    sigbase = {"layer": "placed", "component": f"{case['context']}/{case['component']}", "placement": placement}
+    for v in opsets:
+        try:
+            m = jaxutil.to_onnx(fn, specs, opset=v)
+        except Exception:
+            if acc:
+                acc.tally("export", f"placed_opset{v}:raised")
+                acc.case()
+            continue
+        if acc:
+            acc.case(key=("placed", cid, placement, v), nontrivial=True)
+            acc.tally("export", f"placed_opset{v}:returned")
+        probs = schema_problems(m, v)
+        try:
+            onnx.checker.check_model(m, full_check=True)
+        except Exception as e:
+            probs.append(("checker", _op_from_message(str(e)), str(e)[:250]))
+        seen = set()
+        for facet, op, text in probs:
+            if (facet, op) in seen:
+                continue
+            seen.add((facet, op))
+            out.append({"sig": dict(sigbase, facet=facet, op_type=op, requested_opset=v, claimed=True), "case": {"kind": "placed", "id": cid, "placement": placement, "opsets": [v]},
+                        "detail": f"opset {v}, inside {placement} body: {text}"})
+    return out
+
+
 def list_ids(_):
     from vf import catalog
 
@@ -258,6 +319,10 @@ def plan(tier, seed):
         extra = [13, 15, 17, 19, 20]
         nsh, budget = 64, 1500
     shards = [{"kind": "catalog", "ids": ids[i::nsh], "opsets": opsets + extra, "budget_s": budget} for i in range(nsh)]
+    # the same components lowered inside control-flow bodies, at the low end of the claimed range
+    all_ids = res["res"]
+    pids = all_ids if tier == "thorough" else [all_ids[i] for i in sorted(np.random.default_rng(seed + 1).choice(len(all_ids), size=min(320, len(all_ids)), replace=False).tolist())]
+    shards += [{"kind": "placed", "ids": pids[i::nsh], "opsets": [21, 22] if tier == "quick" else [21, 22, 24, 26], "budget_s": budget} for i in range(nsh)]
     shards += [{"kind": "generated", "shard": i, "seed": seed, "examples": 6 if tier == "quick" else 40, "opsets": opsets} for i in range(8 if tier == "quick" else 32)]
     return shards
 
@@ -286,6 +351,22 @@ def work(sh):
                 acc.samples.append({"catalog_id": cid, "opsets": sh["opsets"]})
             for v in vs:
                 acc.violation(v["sig"], v["case"], v["detail"])
+    elif sh["kind"] == "placed":
+        t0 = time.monotonic()
+        for k, cid in enumerate(sh["ids"]):
+            if time.monotonic() - t0 > sh["budget_s"]:
+                acc.inconclusive += len(sh["ids"]) - k
+                break
+            placement = ["cond", "scan", "cond"][k % 3]
+            try:
+                with core.time_limit(90):
+                    vs = check_placed(cid, placement, sh["opsets"], acc)
+            except core.CaseTimeout:
+                acc.inconclusive += 1
+                vs = []
+            for v in vs:
+                acc.violation(v["sig"], v["case"], v["detail"])
+        acc.samples.append({"structure": "component inside control-flow body", "ids": sh["ids"][:3], "opsets": sh["opsets"]})
     else:
         import hypothesis
         from hypothesis import HealthCheck, Phase, given, settings, strategies as st
@@ -312,4 +393,6 @@ def work(sh):
 def replay(case):
     if case["kind"] == "catalog":
         return check_catalog(case["id"], case["opsets"], None)
+    if case["kind"] == "placed":
+        return check_placed(case["id"], case["placement"], case["opsets"], None)
     return check_generated(case["gk"], case["a"], case["b"], case["opsets"], None)
